@@ -67,6 +67,14 @@ func (c *FnCtx) eventCall(st *State, ins ssa.Instruction, cc *ssa.CallCommon) ma
 						matched = true
 					}
 				}
+				// address-taken local (e.g. a recursive closure variable): the call goes through a load of it
+				if ld, ok := cc.Value.(*ssa.UnOp); ok {
+					for _, v := range c.addrNames[alt] {
+						if v == ld.X {
+							matched = true
+						}
+					}
+				}
 			}
 			// (b) static callee by name
 			for _, n := range names {
